@@ -161,6 +161,20 @@ def flat(items: list, ms: Iterator[str]) -> list[tuple]:
     return out
 
 
+def split_flat(fl: list[tuple], splits: dict[int, int]) -> list[tuple]:
+    out, k = [], 0
+    for t in fl:
+        if t[0] == "C":
+            if k in splits:
+                out += [("C", t[1][:splits[k]]), ("C", t[1][splits[k]:])]
+            else:
+                out.append(t)
+            k += 1
+        else:
+            out.append(t)
+    return out
+
+
 def as_lexed(fl: list[tuple]) -> list[tuple]:
     return [("C", t[1]) if t[0] == "D" else t for t in fl]
 
@@ -266,13 +280,24 @@ class Impl:
             walk(n)
         return pairs, raws
 
-    def run(self, src: str, dt: str, datas: list[dict[str, Any]]) -> dict[str, Any] | None:
+    def run(self, src: str, dt: str, datas: list[dict[str, Any]],
+            splits: dict[int, int] | None = None) -> dict[str, Any] | None:
         """Parse once with default_trim dt; render each data set with
-        suppression on and off.  None = LiquidSyntaxError at parse time."""
+        suppression on and off.  None = LiquidSyntaxError at parse time.
+        With `splits` ({k: offset}) the k-th content token of the lexer's output
+        is cut in two at `offset` and the token list is given to
+        `env.parser.parse` directly: the parser must cope with adjacent content
+        tokens wherever they occur (the lexer makes them only before a final
+        newline)."""
         from liquid2.exceptions import LiquidSyntaxError
         env = self.envs[dt]
         try:
-            t = env.from_string(src)
+            if splits:
+                nodes = env.parser.parse(split_tokens(list(env.tokenize(src)), splits))
+                t = env.template_class(env, nodes, name="", path=None,
+                                       global_data=env.make_globals(None), overlay_data=None)
+            else:
+                t = env.from_string(src)
         except LiquidSyntaxError:
             return None
         pairs, raws = self.ast_obs(t.nodes)
@@ -283,6 +308,48 @@ class Impl:
                 outs[(di, sup)] = t.render(**d)
         env.suppress_blank_control_flow_blocks = True
         return {"pairs": pairs, "raws": raws, "outs": outs}
+
+
+def split_tokens(tokens: list, splits: dict[int, int]) -> list:
+    from liquid2 import ContentToken, TokenType
+    out, k = [], 0
+    for t in tokens:
+        if isinstance(t, ContentToken):
+            if k in splits:
+                o = splits[k]
+                out.append(ContentToken(type_=TokenType.CONTENT, start=t.start, stop=t.start + o,
+                                        text=t.text[:o], source=t.source))
+                out.append(ContentToken(type_=TokenType.CONTENT, start=t.start + o, stop=t.stop,
+                                        text=t.text[o:], source=t.source))
+            else:
+                out.append(t)
+            k += 1
+        else:
+            out.append(t)
+    return out
+
+
+def split_tree(items: list, r: Any, counter: list[int], splits: dict[int, int], lead: bool = False) -> list:
+    """Cut some content tokens of the tree in two (never the whitespace a case
+    tag steps over); records {content index in source order: offset}."""
+    out: list = []
+    for it in items:
+        if it[0] == "C":
+            k = counter[0]
+            counter[0] += 1
+            if not lead and len(it[1]) >= 2 and r.random() < 0.7:
+                o = r.randint(1, len(it[1]) - 1)
+                splits[k] = o
+                out += [("C", it[1][:o]), ("C", it[1][o:])]
+            else:
+                out.append(it)
+        elif it[0] == "B":
+            body = split_tree(it[3], r, counter, splits, lead=(it[1] == "case"))
+            secs = [(g, split_tree(b, r, counter, splits)) for g, b in it[4]]
+            out.append(("B", it[1], it[2], body, secs))
+        else:
+            out.append(it)
+    return out
 
 
 def adjacency(fl: list[tuple], dt: str) -> list[tuple[str, str, str]]:
@@ -658,24 +725,32 @@ def main(chk: C.Check, build: C.Build) -> None:
 
     groups: list[dict[str, Any]] = []
     stats = {"programs": 0, "renders": 0, "parses": 0, "exhaustive_programs": 0, "syntax_errors": 0,
-             "content_tokens_split_by_lexer": 0, "suppressed_outputs": 0,
+             "content_tokens_split_by_lexer": 0, "split_programs": 0, "suppressed_outputs": 0,
              "marker_positions_max": 0, "assignments": 0}
     nontrivial: set[str] = set()
     samples: list[dict[str, Any]] = []
     evaluations = 0
 
-    for pi, (origin, items) in enumerate(programs):
+    def run_program(pi: int, origin: str, items: list, do_split: bool) -> None:
+        nonlocal evaluations
         npos = n_positions(items)
         stats["marker_positions_max"] = max(stats["marker_positions_max"], npos)
         msets, exh = marker_sets(r, npos, exhaustive_max if origin != "illformed" else 0,
                                  (48 if thorough else 10) if origin != "illformed" else 2)
         if origin == "illformed":
             msets = msets[:6]
+        if do_split:
+            msets = msets[:: max(1, len(msets) // (40 if thorough else 12))]
+            exh = False
+        datas = [gen_data(r, "true"), gen_data(r)]
+        if (thorough and npos < 6) or not exh:
+            datas += [gen_data(r), gen_data(r, "false")]
+        splits: dict[int, int] = {}
+        split_items: list | None = None
+        base_items: list | None = None
         stats["exhaustive_programs"] += exh
         stats["programs"] += 1
-        datas = [gen_data(r, "true"), gen_data(r)]
-        if thorough or not exh:
-            datas += [gen_data(r), gen_data(r, "false")]
+        stats["split_programs"] += do_split
         tbl = Table()
         outc: dict[str, int] = {}                       # distinct outcomes, as Coq terms
         exp: dict[tuple, list[int]] = {}                # (dt, sup, di) -> outcome index per assignment
@@ -692,17 +767,31 @@ def main(chk: C.Check, build: C.Build) -> None:
             mitems, nsplit = reconcile(items, flat(items, iter(ms)), got)
             if as_lexed(flat(mitems, iter(ms))) != got:
                 raise AssertionError("reconciled token tree differs from the lexer's tokens")
+            stats["content_tokens_split_by_lexer"] += nsplit
+            if do_split:
+                if split_items is None:
+                    split_items = split_tree(mitems, r, [0], splits)
+                    base_items = mitems
+                    if not splits:                      # nothing to cut in this program
+                        stats["programs"] -= 1
+                        stats["split_programs"] -= 1
+                        stats["assignments"] -= 1
+                        return
+                elif mitems != base_items:
+                    raise AssertionError("lexer split depends on the marker assignment")
+                mitems = split_items
+                if split_flat(got, splits) != as_lexed(flat(mitems, iter(ms))):
+                    raise AssertionError("split token list differs from the split tree")
             if model_items is None:
                 model_items = mitems
             elif model_items != mitems:
                 raise AssertionError("lexer split depends on the marker assignment")
-            stats["content_tokens_split_by_lexer"] += nsplit
             num = assignment_number(ms)
             nums.append(num)
             srcs[num] = src
             no_trim_markers = all(m in ("", "+") for m in ms)
             for dt in DTS:
-                res = impl.run(src, dt, datas)
+                res = impl.run(src, dt, datas, splits if do_split else None)
                 stats["parses"] += 1
                 if res is None:
                     stats["syntax_errors"] += 1
@@ -749,7 +838,7 @@ def main(chk: C.Check, build: C.Build) -> None:
                     if sup and out != res["outs"][(di, False)]:
                         stats["suppressed_outputs"] += 1
                     if out != ref_out[di]:
-                        nontrivial.add(f"{pi}:{num}:{dt}:{sup}:{di}")
+                        nontrivial.add(f"{pi}{'s' if do_split else ''}:{num}:{dt}:{sup}:{di}")
                     term = f"({tbl(out)}, {mk}, {rw})"
                     exp.setdefault((dt, sup, di), []).append(outc.setdefault(term, len(outc)))
         assert model_items is not None
@@ -775,13 +864,18 @@ def main(chk: C.Check, build: C.Build) -> None:
         defs.append(f"Definition TBL : list str := {tbl.coq()}.")
         defs.append(f"Definition OUTC : list outcome := {C.clist(outc, 'outcome')}.")
         defs.append(f"Definition NS : list N := {C.clist(map(str, nums), 'N')}.")
-        groups.append({"tag": f"c18_{os.getpid()}_p{pi:03d}", "defs": "\n".join(defs), "items": gitems})
-        if len(samples) < 5 and origin in ("random", "small") and pi % 7 == 0:
+        groups.append({"tag": f"c18_{os.getpid()}_p{pi:03d}{'s' if do_split else ''}", "defs": "\n".join(defs), "items": gitems})
+        if len(samples) < 5 and origin in ("random", "small") and pi % 7 == 0 and not do_split:
             ms = msets[len(msets) // 2]
             src = to_source(items, iter(ms))
             samples.append({"source": src, "default_trim": "-", "suppress": True, "data": datas[0],
                             "output": impl.run(src, "-", datas[:1])["outs"][(0, True)],
                             "marker_positions": npos, "assignments_run": len(msets), "exhaustive": exh})
+
+    for pi, (origin, items) in enumerate(programs):
+        run_program(pi, origin, items, False)
+        if origin in ("corpus", "random") and (thorough or pi % 2 == 0):
+            run_program(pi, origin, items, True)
 
     # ---- Environment.trim on its own: every (default_trim, left, right) per text
     W = impl.W
